@@ -1,6 +1,7 @@
 package main
 
 import (
+	"io"
 	"bytes"
 	"context"
 	"encoding/binary"
@@ -77,7 +78,73 @@ func (g *gateSvc) desc() *grpc.ServiceDesc {
 	}
 }
 
+// undecodableStreamRequests: a streaming request whose last message is cut short or does not decode
+// must reach the caller as a non-OK status (the handler is the usual loop: Recv until error, return
+// any error other than io.EOF).
+func undecodableStreamRequests(r *Run) {
+	rng := r.Rng.Fork("c11-stream-undecodable")
+	frame := func(b []byte) []byte {
+		out := []byte{byte(len(b) >> 24), byte(len(b) >> 16), byte(len(b) >> 8), byte(len(b))}
+		return append(out, b...)
+	}
+	for i := 0; i < r.Budget(40, 800); i++ {
+		var body []byte
+		for j := 0; j < rng.Intn(3); j++ {
+			body = append(body, frame(marshalDet(&Msg{Count: int32(j + 1), Payload: rng.Bytes(rng.Intn(12))}))...)
+		}
+		last := frame(marshalDet(&Msg{Count: 99, Payload: rng.Bytes(1 + rng.Intn(20))}))
+		kind := ""
+		switch i % 3 {
+		case 0: // cut right after the size preface
+			body, kind = append(body, last[:4]...), "cut-after-preface"
+		case 1: // cut somewhere inside the frame
+			body, kind = append(body, last[:1+rng.Intn(len(last)-1)]...), "cut-inside-frame"
+		default: // complete frame whose payload is not a valid message
+			body, kind = append(body, frame([]byte{0xff, 0xff, 0xff, 0x07})...), "garbage-payload"
+		}
+		svr := &scriptServer{}
+		got := 0
+		svr.bidi = func(s grpchantesting.TestService_BidiStreamServer) error {
+			for {
+				_, err := s.Recv()
+				if err == io.EOF {
+					return nil
+				}
+				if err != nil {
+					return err
+				}
+				got++
+			}
+		}
+		hs := httpgrpc.NewServer()
+		grpchantesting.RegisterTestServiceServer(hs, svr)
+		req := httptest.NewRequest("POST", mBidi, bytes.NewReader(body))
+		req.Header.Set("Content-Type", httpgrpc.StreamRpcContentType_V1)
+		rec := httptest.NewRecorder()
+		var pan string
+		func() { defer recoverTo(&pan); hs.ServeHTTP(rec, req) }()
+		_, trs := walkFrames(rec.Body.Bytes())
+		code := int32(-1)
+		if len(trs) == 1 {
+			var tr httpgrpc.HttpTrailer
+			if proto.Unmarshal(trs[0], &tr) == nil {
+				code = tr.Code
+			}
+		}
+		c := map[string]interface{}{"op": "stream-undecodable", "kind": kind, "body_hex": hexOrDash(body)}
+		r.Eval(sprintf("stream-undecodable %s %x", kind, body), true)
+		r.Count("stream-undecodable:" + kind)
+		if pan != "" {
+			r.Violate("http-server/stream/panic", "no request makes the server panic", pan, c, pan)
+		} else if code == 0 {
+			r.Violate("http-server/stream/undecodable-request-ok", "an undecodable request message reaches the caller as a non-OK status",
+				sprintf("%s: the request's last message is %s, yet the call ended with status OK after %d messages", kind, kind, got), c, "code=0")
+		}
+	}
+}
+
 func suiteC11(r *Run) {
+	undecodableStreamRequests(r)
 	r.Rule = "HTTP requests of all shapes (methods, Content-Type strings with parameters/case/unknown types, header sets with invalid base64 in -bin headers and bad GRPC-Timeout, valid/garbage/empty bodies) against every registered method kind through httptest.ResponseRecorder and the real Server (404 via the mux); handler-call counters; reply frames parsed. Non-trivial: request reaches a gate decision other than the default success path or carries a handler script; distinct by full request tuple."
 	r.Assumptions = append(r.Assumptions, "mime.ParseMediaType (its answer is passed to the model)", "codec Unmarshal (its answer is passed to the model)", "http.ServeMux 404 for unknown paths")
 	rng := r.Rng
